@@ -89,6 +89,18 @@ CLAIMED = {
             "Assumed: autograd.jacobian is the exact derivative, scipy.integrate.quad the exact integral (abserr ignored), fsolve converged; "
             "what derived_observable does with operands and gradients is C01 (stub that records them). NOT decided: vector-valued d in "
             "find_root, integration kwargs, agreement with the explicitly inverted function beyond first order."),
+    "C12": ("symbolic execution of the selection statements of the dobs reader and of the table-cell statements of the writer (statement slices, exact filter-loop summaries, loop invariant) + z3; native execution of the same slices compiled from the source",
+            "Proof (reader, import_dobs_string): for one chain and one observable with symbolic table column, configuration list and mean, "
+            "the configurations that come back are exactly those whose stored number is not the marker 0, in increasing order, each with "
+            "sample = stored number + mean; the chain is dropped iff no configuration is marked as measured. This obligation failed on the "
+            "original tree (a sample of exactly 0.0 was dropped) and was fixed. Writer (create_dobs_string): the cell written for a "
+            "configuration on which the observable was measured is the number fluctuation + replica offset and the position counter "
+            "advances correctly; the clause `never the marker 0` fails exactly when that number is 0 (sample == central value): recorded "
+            "known finding, inherent in the format.",
+            "DESIGN.md section 6 C12",
+            "NOT decided: the XML assembly / parsing around these statements (_import_array, _import_rdata, _import_cdata, dict_to_xml), "
+            "several observables / chains in one table (alignment by the counters across rows), the pobs format, covariance inputs, the "
+            "replica-separator handling, text formatting accuracy of '%1.16e'."),
     "C13": ("symbolic execution of export_jackknife / import_jackknife (structured-matrix model of ones - (n-1) identity) + arithmetic lemmas",
             "Proof: export_jackknife returns [value, (n value - x_i)/(n-1)] for every i and rejects observables with more than one chain; "
             "import_jackknife returns a well-formed single-chain observable with value jacks[0], the given configuration list and samples "
